@@ -458,11 +458,11 @@ Proof.
     cbn [rbind].
     assert (Hfresh2 : ~ In id (map fst (norm_objs st (d_objects d)))).
     { unfold norm_objs. rewrite map_map. cbn [fst]. exact Hfresh. }
-    rewrite has_objstm_insert_fresh by exact Hfresh2. rewrite has_objstm_norm, (dk_objstm _ _ _ DK).
+    rewrite objstm_pass_none by (rewrite has_objstm_insert_fresh by exact Hfresh2; rewrite has_objstm_norm; exact (dk_objstm _ _ _ DK)).
     rewrite remove_insert_fresh by exact Hfresh2.
     rewrite swap_remove_set_fresh by exact (dk_trailer _ _ _ DK). reflexivity.
   - unfold objs. rewrite (iso_objects_rt P md5_len _ ip fek None _ HA AG (dk_objs _ _ _ DK)) by (intros s Es; discriminate Es).
-    rewrite has_objstm_norm, (dk_objstm _ _ _ DK).
+    rewrite objstm_pass_none by (rewrite has_objstm_norm; exact (dk_objstm _ _ _ DK)).
     rewrite swap_remove_set_fresh by exact (dk_trailer _ _ _ DK). reflexivity.
 Qed.
 
